@@ -148,6 +148,17 @@ func (x *Exec) bigModel(st *State, call *ast.CallExpr, m string, recv *T, args [
 		}
 		q := fmt.Sprintf("(div %s %s)", val(args[0]), val(args[1]))
 		r := fmt.Sprintf("(mod %s %s)", val(args[0]), val(args[1]))
+		if _, isLit := litInt(val(args[1])); !isLit {
+			// symbolic divisor: name quotient and remainder and state the defining
+			// facts of Euclidean division explicitly (plain polynomial constraints
+			// are far more stable for the solvers than div/mod by a variable)
+			qa := x.d.freshConst("quo", tyMath)
+			ra := x.d.freshConst("rem", tyMath)
+			a, b := val(args[0]), val(args[1])
+			st.assume(fmt.Sprintf("(= %s (+ (* %s %s) %s))", a, b, qa.S, ra.S))
+			st.assume(fmt.Sprintf("(and (<= 0 %s) (< %s (ite (>= %s 0) %s (- %s))))", ra.S, ra.S, b, b, b))
+			q, r = qa.S, ra.S
+		}
 		switch m {
 		case "Div":
 			return ret(q)
